@@ -321,7 +321,7 @@ pub fn encode(i: &Instruction) -> Result<Vec<u8>, String>
 	match i.encode(&mut tmp)
 	{
 		Ok(len) => Ok(tmp[..len].to_vec()),
-		Err(e) => Err(e.to_string()),
+		Err(e) => Err(crate::errkind::encode_text(&e)),
 	}
 }
 
@@ -359,7 +359,7 @@ pub fn eval_out(arg: &Argument<'static>, ctx: &Context) -> String
 		Ok(Ok(Evaluation::Deferred{cause, ..})) => {let _ = write!(o, "D {} ", hex(cause.as_bytes()));},
 		Ok(Err(EvalError::NoSuchVariable{name, ..})) => {let _ = write!(o, "N {} ", hex(name.as_bytes()));},
 		Ok(Err(EvalError::BadType{kind, op})) => {let _ = write!(o, "EB {} {} ", u8::from(kind), u8::from(op));},
-		Ok(Err(EvalError::Overflow(e))) => {let _ = write!(o, "EO {} ", hex(e.to_string().as_bytes()));},
+		Ok(Err(EvalError::Overflow(e))) => {let _ = write!(o, "EO {} ", hex(format!("{e:?}").as_bytes()));},
 	}
 	ser_arg(&a, &mut o);
 	o
@@ -463,18 +463,8 @@ impl Outcome
 	}
 }
 
-fn err_text(e: &(dyn Error + 'static)) -> String
-{
-	let mut s = e.to_string();
-	let mut src = e.source();
-	while let Some(x) = src
-	{
-		s.push_str(" <- ");
-		s.push_str(&x.to_string());
-		src = x.source();
-	}
-	s
-}
+/// canonical text of a diagnostic, rendered from the STRUCTURE of the error value (errkind.rs), never from its `Display`
+fn err_text(e: &(dyn Error + 'static)) -> String {crate::errkind::front_text(e)}
 
 /// exactly the sequence of `bin/assembler.rs`: assemble, close_segment, finalize, then read output and errors
 pub fn real_run(text: &str, line: u32, col: u32, dirs: &DirectiveList) -> Outcome
@@ -490,14 +480,7 @@ pub fn real_run(text: &str, line: u32, col: u32, dirs: &DirectiveList) -> Outcom
 		let mut other = extra;
 		for e in ctx.get_errors()
 		{
-			let mut t = e.value.to_string();
-			let mut src = e.source();
-			while let Some(x) = src
-			{
-				t.push_str(" <- ");
-				t.push_str(&x.to_string());
-				src = x.source();
-			}
+			let t = err_text(&e.value);
 			if e.line == line && e.col == col {errs.push(t);} else {other.push(format!("{t} ({}:{})", e.line, e.col));}
 		}
 		let out: Vec<(u32, Vec<u8>)> = ctx.output().iter().map(|(r, d)| (r.get_first(), d.to_vec())).collect();
